@@ -1,22 +1,44 @@
 /*@UNIT
 {
-  "property": "C13",
-  "unit": "read_bin_exact",
-  "function": "pstm_read_unsigned_bin",
-  "source": "crypto/math/pstm.c",
-  "keep_bodies": ["pstm_zero", "pstm_grow", "pstm_mul_2d", "pstm_copy", "pstm_lshd", "pstm_clamp"],
-  "assumed": ["realloc (model c13_realloc in c13x.h: NULL, or a distinct constant-size block holding the old contents)"],
-  "mode": "bounded",
-  "bounds": "input of 0..BUFN bytes (quick 9 = one digit and a byte, thorough 17), every byte value; destination of any capacity 1..NDIG+2, any prior content",
-  "defs_quick": ["NDIG=2", "BUFN=9"],
-  "defs_thorough": ["NDIG=3", "BUFN=17"],
-  "unwind_quick": 8,
-  "unwind_thorough": 9,
-  "unwindset_quick": ["pstm_read_unsigned_bin_wrapped_for_contract_checking.0:11", "harness.1:11"],
-  "unwindset_thorough": ["pstm_read_unsigned_bin_wrapped_for_contract_checking.0:19", "harness.1:19"],
-  "object_bits": 8,
-  "native_replay": true,
-  "timeout": 600
+ "property": "C13",
+ "unit": "read_bin_exact",
+ "function": "pstm_read_unsigned_bin",
+ "source": "crypto/math/pstm.c",
+ "keep_bodies": [
+  "pstm_zero",
+  "pstm_grow",
+  "pstm_mul_2d",
+  "pstm_copy",
+  "pstm_lshd",
+  "pstm_clamp"
+ ],
+ "assumed": [
+  "realloc (model c13_realloc in c13x.h: NULL, or a distinct constant-size block holding the old contents)"
+ ],
+ "mode": "bounded",
+ "bounds": "input of 0..BUFN bytes (quick 9 = one digit and a byte, thorough 17), every byte value; destination of any capacity 1..NDIG+2, any prior content",
+ "defs_quick": [
+  "NDIG=2",
+  "BUFN=9"
+ ],
+ "defs_thorough": [
+  "NDIG=3",
+  "BUFN=17"
+ ],
+ "unwind_quick": 8,
+ "unwind_thorough": 9,
+ "unwindset_quick": [
+  "pstm_read_unsigned_bin_wrapped_for_contract_checking.0:11",
+  "harness.1:11"
+ ],
+ "unwindset_thorough": [
+  "pstm_read_unsigned_bin_wrapped_for_contract_checking.0:19",
+  "harness.1:19"
+ ],
+ "object_bits": 8,
+ "native_replay": true,
+ "timeout": 600,
+ "tier": "thorough"
 }
 @*/
 /* C13.read_bin_exact  import: the value of a after pstm_read_unsigned_bin(a, buf, len) is the big-endian
